@@ -51,7 +51,7 @@ FUNCTIONS_UNDER_CONTRACT = [
 CB = O.ContractedBackends(nodes=("ExtendNode", "ProjectNode"))
 MAX_GROUP = 3
 
-_FRAME_TYPE = {"num": "float", "numx": "float", "int": "int", "bool": "bool", "str": "str", "strdate": "str", "strdatetime": "str"}
+_FRAME_TYPE = {"num": "float", "numx": "float", "numr": "float", "int": "int", "bool": "bool", "str": "str", "str2": "str", "strdate": "str", "strdatetime": "str", "strdate2": "str", "strdatetime2": "str"}
 
 
 def scope(tier: str) -> Dict[str, Any]:
@@ -149,7 +149,7 @@ _OPS: Dict[str, Any] = {}
 def build_ops(m: O.Method, types):
     from data_algebra import TableDescription
 
-    if m.key not in _OPS:
+    if m.uid not in _OPS:
         td = TableDescription(table_name="d", column_names=list(types.keys()))
         if m.cls in ("p", "up"):
             ops = td.project({"r": m.expr}, group_by=["g"])
@@ -159,8 +159,8 @@ def build_ops(m: O.Method, types):
             ops = td.extend({"r": m.expr}, partition_by=["g"], order_by=["o"])
         else:
             ops = td.extend({"r": m.expr})
-        _OPS[m.key] = ops
-    return _OPS[m.key]
+        _OPS[m.uid] = ops
+    return _OPS[m.uid]
 
 
 def describe(m: O.Method) -> str:
@@ -272,7 +272,7 @@ def run_table(m: O.Method, tab: Dict[str, Any], be: str) -> Dict[str, Any]:
                 out = O.canon_out(C.run_polars(ops, {"d": fr}))
         else:
             ses = O.SqliteSession.get()
-            sql = ses.sql_for(m.key, ops)
+            sql = ses.sql_for(m.uid, ops)
             if sql[0] != "ok":
                 out = sql
             else:
@@ -283,7 +283,7 @@ def run_table(m: O.Method, tab: Dict[str, Any], be: str) -> Dict[str, Any]:
     wrap.take_failures()
     if st["verdict"] is None:
         if out[0] != "raise":
-            raise wrap.HarnessError("the contract was not evaluated for %s on %s" % (m.key, be))
+            raise wrap.HarnessError("the contract was not evaluated for %s on %s" % (m.uid, be))
         return {"obs": out, "status": "raise", "exp": exp}
     if st["obs"][0] != "ok":
         return {"obs": st["obs"], "status": "raise", "exp": exp}
@@ -362,7 +362,7 @@ def backends_for(row: Dict[str, Any]) -> Dict[str, str]:
 
 
 def classify(m: O.Method, be: str, u: Dict[str, Any], case: Dict[str, Any]) -> str:
-    ops_ = u["operands"]
+    ops_ = list(u["operands"]) + (list(m.consts) if m.cls == "e" else [])  # constants written into the expression are operands too
     exp, obs = u.get("expected"), u.get("observed")
     if u["status"] == "fail" and exp is not None and obs is not None:
         one_null = len(ops_) == 2 and (ops_[0] is None) != (ops_[1] is None)
@@ -376,13 +376,23 @@ def classify(m: O.Method, be: str, u: Dict[str, Any], case: Dict[str, Any]) -> s
                 return "%s:sql_model._db_maximum_expr:maximum-minimum-null-operand" % PID
             if be == "polars":
                 return "%s:polars_model.PolarsModel.impl_map_arbitrary_arity:maximum-minimum-null-operand" % PID
-        if m.catalog_expr == "x.nunique()" and be == "polars" and any(v is None for v in ops_):
+        if m.catalog_expr == "x.nunique()" and be == "polars" and any(v is None for v in u["operands"]):
             # n_unique counts the missing value as an item: exactly one more than documented, on every row of the group
             if len(exp) == len(obs) and all(isinstance(o, int) and o == e + 1 for e, o in zip(exp, obs)):
                 return "%s:polars_model._populate_expr_impl_map:nunique-counts-null" % PID
-        if m.catalog_expr == "z.cumcount()" and be == "pandas" and obs == list(range(len(ops_))):
+        if m.catalog_expr == "z.cumcount()" and be == "pandas" and obs == list(range(len(u["operands"]))):
             # pandas GroupBy.cumcount: 0-based position of the row in its partition, nulls counted
             return "%s:pandas_base.PandasModelBase._extend_step:cumcount-is-zero-based-row-position" % PID
+        if m.catalog_expr == "g.trimstr(0, 2)" and be == "sqlite" and len(m.consts) == 2 and m.consts[0] > 0 and isinstance(u["operands"][0], str):
+            # SUBSTR(x, 1 + start, stop): the exclusive stop position is used as a LENGTH
+            a, (st, en) = u["operands"][0], m.consts
+            if obs == [a[st : st + en]] and a[st : st + en] != a[st:en]:
+                return "%s:sql_model._trimstr:stop-used-as-length" % PID
+    if u["status"] == "raise" and u.get("raised"):
+        if m.catalog_expr == "a.if_else(x, y)" and be == "pandas" and u["operands"][0] is None and m.consts and all(isinstance(c, int) for c in m.consts):
+            # numpy.where(cond, 1, 2) is an integer array; writing None into it for the null condition raises
+            if u["raised"][0] == "TypeError" and "int() argument must be" in u["raised"][1]:
+                return "%s:pandas_base.PandasModelBase._if_else_expr:null-condition-with-integer-branches" % PID
     return "%s:unclassified:%s" % (PID, C.case_hash(dict(case, backend=be)))
 
 
@@ -407,32 +417,32 @@ def _worker(job):
     rows = {r["key"]: r for r in catalog_rows()}
     out = []
     for key in job["keys"]:
-        m = dm[key]
         row = rows[key]
-        res = {"key": key, "counts": collections.Counter(), "fails": [], "skip": m.skip, "note": m.note, "samples": []}
-        if m.skip is None:
-            bes = backends_for(row)
-            for tab in method_tables(m, sc):
-                for be in BACKENDS:
-                    if bes[be] == "not-claimed":
-                        res["counts"]["%s:not-claimed" % be] += len(units(m, tab))
-                        continue
-                    try:
-                        us = eval_table(m, tab, be)
-                    except Exception as e:
-                        import traceback
+        for m in [dm[key]] + dm[key].variants:
+            res = {"key": m.uid, "counts": collections.Counter(), "fails": [], "skip": m.skip, "note": m.note, "samples": []}
+            if m.skip is None:
+                bes = backends_for(row)
+                for tab in method_tables(m, sc):
+                    for be in BACKENDS:
+                        if bes[be] == "not-claimed":
+                            res["counts"]["%s:not-claimed" % be] += len(units(m, tab))
+                            continue
+                        try:
+                            us = eval_table(m, tab, be)
+                        except Exception as e:
+                            import traceback
 
-                        res["fails"].append({"harness": "%s: %s | %s" % (type(e).__name__, e, traceback.format_exc()[-600:]), "be": be})
-                        continue
-                    for u in us:
-                        res["counts"]["%s:%s" % (be, u["status"])] += 1
-                        if u["status"] in ("fail", "raise"):
-                            case = {"method": key, "variant": tab["variant"], "operands": u["operands"]}
-                            res["fails"].append({"be": be, "status": u["status"], "detail": u["detail"][:300], "case": case, "key": classify(m, be, u, case), "expected": repr(u.get("expected"))[:200], "observed": repr(u.get("observed"))[:200]})
-                    if be == "pandas" and not res["samples"] and us and us[-1]["status"] == "ok":
-                        res["samples"].append({"step": describe(m), "operands": us[-1]["operands"], "backend": be, "status": "ok"})
-        res["counts"] = dict(res["counts"])
-        out.append(res)
+                            res["fails"].append({"harness": "%s: %s | %s" % (type(e).__name__, e, traceback.format_exc()[-600:]), "be": be})
+                            continue
+                        for u in us:
+                            res["counts"]["%s:%s" % (be, u["status"])] += 1
+                            if u["status"] in ("fail", "raise"):
+                                case = {"method": key, "vid": m.vid, "variant": tab["variant"], "operands": u["operands"]}
+                                res["fails"].append({"be": be, "status": u["status"], "detail": u["detail"][:300], "case": case, "key": classify(m, be, u, case), "expected": repr(u.get("expected"))[:200], "observed": repr(u.get("observed"))[:200], "step": describe(m)})
+                        if be == "pandas" and not res["samples"] and us and us[-1]["status"] == "ok" and m.vid == "catalog":
+                            res["samples"].append({"step": describe(m), "operands": us[-1]["operands"], "backend": be, "status": "ok"})
+            res["counts"] = dict(res["counts"])
+            out.append(res)
     return {"results": out, "wrap": wrap.snapshot()}
 
 
@@ -467,8 +477,7 @@ def bounded(rep: Report, tier: str, seed: int) -> None:
                 if "harness" in f:
                     rep.errors.append("harness error on %s %s: %s" % (res["key"], f["be"], f["harness"]))
                     continue
-                m = dm[res["key"]]
-                what = "%s %s for %s with operands %r: %s" % (f["be"], "raised" if f["status"] == "raise" else "differs from the documented meaning", describe(m), f["case"]["operands"], f["detail"])
+                what = "%s %s for %s with operands %r: %s" % (f["be"], "raised" if f["status"] == "raise" else "differs from the documented meaning", f["step"], f["case"]["operands"], f["detail"])
                 rep.violations.append(Violation(key=f["key"], what=what, replay={"module": "cbc.c05", "case": dict(f["case"], backend=f["be"])}))
     rep.evaluations += sum(v for k, v in counts.items() if not k.endswith("not-claimed"))
     n_nontrivial = sum(v for k, v in counts.items() if k.split(":")[1] in ("ok", "fail"))
@@ -478,6 +487,7 @@ def bounded(rep: Report, tier: str, seed: int) -> None:
     wrap.require_evaluated(rep, CB.names())
     rep.extra["status_counts"] = dict(sorted(counts.items()))
     rep.extra["methods"] = len(keys)
+    rep.extra["constant_parameter_variants"] = sum(len(dm[k].variants) for k in keys)
     rep.extra["domain_restrictions"] = dict(sorted(restrictions.items()))
     rep.extra["methods_without_comparable_documentation"] = dict(sorted(skipped.items()))
     rep.extra["postgresql"] = "PostgreSQLModel column of the catalog: not executable here, skipped for all %d rows" % len(rows)
@@ -489,7 +499,7 @@ def bounded(rep: Report, tier: str, seed: int) -> None:
 def replay_case(case: Dict[str, Any]) -> bool:
     """Re-run the operand table of one stored case natively; print what was observed for the stored operands."""
     dm = O.doc_meaning()
-    m = dm[case["method"]]
+    m = [x for x in [dm[case["method"]]] + dm[case["method"]].variants if x.vid == case.get("vid", "catalog")][0]
     row = {r["key"]: r for r in catalog_rows()}[case["method"]]
     print("step:", describe(m), " (catalog row %r, Pandas=%s SQLiteModel=%s)" % (row["expression"], row["Pandas"], row["SQLiteModel"]))
     tabs = [t for t in method_tables(m, scope("thorough")) if t["variant"] == case["variant"]] or method_tables(m, scope("thorough"))
@@ -506,7 +516,7 @@ def replay_case(case: Dict[str, Any]) -> bool:
             for u in res:
                 if u["unit"] in want:
                     print("%s: operands %r -> documented %r, observed %r%s" % (be, u["operands"], u.get("expected"), u.get("observed"), (" RAISED " + repr(u.get("raised"))) if u.get("raised") else ""))
-                    key = classify(m, be, u, {"method": m.key, "variant": tab["variant"], "operands": u["operands"]}) if u["status"] in ("fail", "raise") else ""
+                    key = classify(m, be, u, {"method": m.key, "vid": m.vid, "variant": tab["variant"], "operands": u["operands"]}) if u["status"] in ("fail", "raise") else ""
                     print("%s verdict: %s %s %s" % (be, u["status"], key, u["detail"]))
                     bad = bad or u["status"] in ("fail", "raise")
     return bad
